@@ -22,6 +22,7 @@ FRAGMENT = '\\textbf{N}\\begin{q}z\\end{q}$m$\\w'
 NEWS = [
     [('s', 'NEW')], [('s', ' new text ')], [('n', 0)], [('n', 1)], [('s', 'A'), ('n', 2)], [('n', 0), ('s', ' and '), ('n', 1)],
     [('n', 3), ('s', ' ')], [('s', '')], [('s', 'x'), ('s', 'y'), ('s', 'z')],
+    [('soup', '\\p\\q'), ('s', 'Z')], [('s', 'A'), ('soup', '\\p{1} and $m$'), ('n', 0)], [('soup', ''), ('s', 'E')],
 ]
 
 
@@ -34,6 +35,10 @@ def new_material(spec):
     for kind, v in spec:
         if kind == 's':
             out.append(v)
+            text += v
+        elif kind == 'soup':
+            whole = TexSoup(v)      # a whole parsed fragment used as one new node
+            out.append(whole)
             text += v
         else:
             if frag is None:
